@@ -10,7 +10,7 @@ import util
 import c13_lib as L
 
 ID = 'C13'
-LEAN_MODULES = ['Pfst.Props.C13', 'Pfst.Props.C13Options', 'Pfst.Props.C13Fallback']
+LEAN_MODULES = ['Pfst.Props.C13', 'Pfst.Props.C13Options', 'Pfst.Props.C13Fallback', 'Pfst.Props.C13Params']
 LEAN_DEPS = ['Pfst.Reconcile', 'Pfst.ReconcileLemmas']
 THEOREMS = [
     'Pfst.C13.frame', 'Pfst.C13.fallback_overrides', 'Pfst.C13.foreign_ok_correct', 'Pfst.C13.fields_scalar_correct',
@@ -25,6 +25,8 @@ THEOREMS = [
     # the retry-at-parent fallback over the refusal alphabet (Pfst/Gen/ReconcileCatch.lean)
     'Pfst.C13.battery_caught', 'Pfst.C13.battery_retried', 'Pfst.C13.fallback_total', 'Pfst.C13.fallback_kind_independent',
     'Pfst.C13.recNode_is_fallbackStep',
+    # the parameter defaults of Reconcile.__init__ (Pfst/Gen/ReconcileParams.lean)
+    'Pfst.C13.params_lattice_complete', 'Pfst.C13.omitted_gets_default', 'Pfst.C13.given_is_kept', 'Pfst.C13.param_independent',
 ]
 RULE = ('corpus programs (snippets covering every node type, generated programs, layout / comment / parenthesis variants, '
         'stdlib chunks) are parsed to an FST, marked, and edited by 1-3 pure-AST mutations per round for 1-3 mark/reconcile '
@@ -40,6 +42,11 @@ RULE = ('corpus programs (snippets covering every node type, generated programs,
         'reconcile() on an edited AST that ast.unparse accepts is a failure (raised:<Type>). The edit kinds include scalar edits whose '
         'direct put is refused (ImportFrom module/level, keyword.arg <-> None, Starred <-> plain Call argument, alias.asname, '
         'ExceptHandler.name), which force the retry-at-parent fallback. '
+        'DICT FAMILY (every run): fixed Dicts and a MatchMapping whose keys and values / patterns are edited INDEPENDENTLY (swap or '
+        'rotate values only, keys only, key of one entry with the value of another from the same Dict, from a second in-tree Dict, from a '
+        'Dict of another tree, with ** entries). PARAMETERS: a slice of the scripts is re-run with every combination of reconcile()\'s '
+        'own keyword parameters omitted / None / given their documented default (26 calls): the returned source must be the bare '
+        'call\'s; Reconcile.__init__ is evaluated on the whole presence lattice into Pfst/Gen/ReconcileParams.lean. '
         'CALLER OPTIONS: a slice of the same scripts is re-run inside `with FST.options(...)` (parse, mark, edits, reconcile) for every '
         'global option of FST.get_options() at each non-default value, one at a time, plus random combinations; the oracle must give '
         'the same verdicts, and for options reconcile() refuses as keywords ("managed during the process") the returned source must '
@@ -168,6 +175,83 @@ def _w_global_backslash_del(a, FST):
     del a.body[0].names[-1]                                      # last name after a backslash continuation deleted
 
 
+# ---- deterministic Dict / MatchMapping family: keys and values edited INDEPENDENTLY (every run, both tiers) ----------------------
+
+DICT_SRCS = [
+    'd = {x + 1: p, y - 2: q}',
+    "d = {a: 1, 'b': 2}",
+    "d = {a: 1, **r, 'k': [2], **s, c.d: f(3)}",
+    "d = {\n    a: 1,  # one\n    'b': 2,  # two\n    (c): 3,\n}",
+]
+
+
+def _dict_ops():
+    def swap(lst, i, j):
+        lst[i], lst[j] = lst[j], lst[i]
+
+    def D(a):
+        return a.body[0].value
+
+    ops = {}
+    ops['swapvals01'] = lambda a, FST: swap(D(a).values, 0, 1)
+    ops['swapvals0n'] = lambda a, FST: swap(D(a).values, 0, len(D(a).values) - 1)
+    ops['swapkeys01'] = lambda a, FST: swap(D(a).keys, 0, 1)
+    ops['swapkeys0n'] = lambda a, FST: swap(D(a).keys, 0, len(D(a).keys) - 1)
+    ops['rotvals'] = lambda a, FST: D(a).values.append(D(a).values.pop(0))
+    ops['rotkeys'] = lambda a, FST: D(a).keys.append(D(a).keys.pop(0))
+
+    def cross_same(a, FST):                       # the key of entry 1 with the value of entry 0, appended (nodes reused)
+        d = D(a)
+        d.keys.append(d.keys[1])
+        d.values.append(d.values[0])
+
+    def cross_other(a, FST, k=1, v=0):            # same, taken from a Dict of another FST tree
+        o = FST("e = {u: 0, w: 1, **t, 'z': 2}", 'exec')
+        od = o.a.body[0].value
+        D(a).keys.append(od.keys[k])
+        D(a).values.append(od.values[v])
+        return o
+
+    def pair_other(a, FST):                       # control: two intact entries of the other tree
+        o = FST("e = {u: 0, w: 1, **t, 'z': 2}", 'exec')
+        od = o.a.body[0].value
+        D(a).keys.extend(od.keys[1:3])
+        D(a).values.extend(od.values[1:3])
+        return o
+
+    ops['cross_same'] = cross_same
+    ops['cross_other'] = cross_other
+    ops['cross_other_star'] = lambda a, FST: cross_other(a, FST, 2, 0)      # `**` key of entry 2 with the value of entry 0
+    ops['cross_other_unstar'] = lambda a, FST: cross_other(a, FST, 0, 2)    # key of entry 0 with the value of the `**` entry
+    ops['pair_other'] = pair_other
+    return ops
+
+
+def _w_cross_second_dict(a, FST):
+    d, e = a.body[0].value, a.body[1].value
+    e.keys.append(d.keys[1])
+    e.values.append(d.values[0])
+
+
+def _mm(a):
+    return a.body[0].cases[0].pattern
+
+
+def _family():
+    fam = {}
+    for i, src in enumerate(DICT_SRCS):
+        for name, fn in _dict_ops().items():
+            fam[f'dict{i}_{name}'] = (src, fn, 'Dict.dict')
+    fam['dict_cross_second'] = ('d = {x: 0, y: 1}\ne = {u: v}', _w_cross_second_dict, 'Dict.dict')
+    msrc = "match m:\n    case {1: a, 'k': [b, c], 3.5: D(e), **rest}:\n        pass"
+    sw = lambda lst, i, j: lst.__setitem__(slice(None), [lst[j] if k == i else lst[i] if k == j else x for k, x in enumerate(lst)])
+    fam['mm_swapkeys'] = (msrc, lambda a, FST: sw(_mm(a).keys, 0, 1), 'MatchMapping.keys')
+    fam['mm_swappats'] = (msrc, lambda a, FST: sw(_mm(a).patterns, 0, 1), 'MatchMapping.patterns')
+    fam['mm_rotpats'] = (msrc, lambda a, FST: _mm(a).patterns.append(_mm(a).patterns.pop(0)), 'MatchMapping.patterns')
+    fam['mm_rotkeys'] = (msrc, lambda a, FST: _mm(a).keys.append(_mm(a).keys.pop(0)), 'MatchMapping.keys')
+    return fam
+
+
 def _fstring_kwonly(tree):
     """a lambda with a keyword-only parameter without default inside an f-string (see C13-F8)"""
     for n in ast.walk(tree):
@@ -201,6 +285,33 @@ def _w_alias_dotted_space(a, FST):
     a.body[0].names[0].asname = None
 
 
+def _w_dict_del_before_stars(a, FST):
+    d = a.body[0].value
+    del d.keys[0]
+    del d.values[0]
+
+
+def _w_try_star_handlers(a, FST):
+    a.body[0].handlers[:] = a.body[1].handlers                  # every handler of the Try replaced by except* handlers
+
+
+def _custom_copy_keeps_mark():
+    """statement root: mark(), copy(whole=False), edit, reconcile() -> list of (class, detail)"""
+    from fst import FST
+    f = FST('x = 1  # c')
+    f.mark()
+    f.copy(whole=False)
+    f.a.value = ast.Constant(2)
+    try:
+        o = f.reconcile()
+    except Exception as e:
+        return [('raised:' + type(e).__name__, str(e)[:120])]
+    return [] if o.src == 'x = 2  # c' else [('structure-differs', repr(o.src))]
+
+
+CUSTOM = {'copy_keeps_mark': (_custom_copy_keeps_mark, 'FST.copy')}
+
+
 def _w_kw_none(a, FST):
     n = a.body[0]
     (n.value if isinstance(n, ast.Assign) else n).keywords[0].arg = None
@@ -225,6 +336,9 @@ WITNESS = {
     'trystar_all_handlers': ('try:\n    pass\nexcept A:\n    pass\nexcept B:\n    pass\ntry:\n    pass\nexcept* C:\n    pass\n',
                              _w_trystar_handlers, 'TryStar.handlers'),
     'foreign_reordered': ('x = [0]', _w_foreign_reordered, 'List.elts'),
+    'dict_del_before_stars': ('x = {a: 1, **b, **c}', _w_dict_del_before_stars, 'Dict.dict'),
+    'try_all_star_handlers': ('try:\n    pass\nexcept A:\n    pass\ntry:\n    pass\nexcept* C:\n    pass\nexcept* D:\n    pass\n',
+                              _w_try_star_handlers, 'Try.handlers'),
     'alias_dotted_space': ('import p . q as r', _w_alias_dotted_space, 'Import.names'),
     # edits whose direct put is refused with ValueError: must come out of the retry at the parent (no finding: regression scripts)
     'retry_kw_none_call': ('r = f(a=b, *c)\n', _w_kw_none, 'Call.keywords'),
@@ -278,10 +392,15 @@ def _envs(rng, ncombos):
     return envs, missing
 
 
+WITNESS.update(_family())
+
+
 def _run_case(arg):
     """(src, seed, mode, foreign[, env]): with `env` the whole case (parse, mark, edits, reconcile) runs inside
     `with FST.options(**env)` (the caller's own defaults); the edits depend on (src, seed, mode) only."""
     env = arg[4] if len(arg) > 4 else None
+    if len(arg) > 5 and arg[5] is not None:
+        return _run_case_kw(arg)
     if not env:
         try:
             return _run_case_inner(arg[:4])
@@ -306,10 +425,54 @@ def _run_case(arg):
     return res
 
 
-def _run_case_inner(arg):
+PARAMS = ('trivia_ast_put', 'trivia_fst_put', 'trivia_fst_get')     # reconcile()'s own keyword parameters
+
+
+def _param_defaults():
+    from fst import reconcile as RC
+    return {'trivia_ast_put': RC._DEFAULT_TRIVIA_AST_PUT, 'trivia_fst_put': RC._DEFAULT_TRIVIA_FST_PUT,
+            'trivia_fst_get': RC._DEFAULT_TRIVIA_FST_GET}
+
+
+def _kw_lattice():
+    """every combination of (omitted | None | the documented default value given explicitly) of reconcile()'s parameters:
+    27 calls that must all behave like the bare call; the codes are kept JSON-able ('o', 'n', 'd')"""
+    import itertools
+    return [dict(zip(PARAMS, c)) for c in itertools.product('ond', repeat=3) if set(c) != {'o'}]
+
+
+def _kw_values(codes):
+    d = _param_defaults()
+    return {k: (None if c == 'n' else d[k]) for k, c in codes.items() if c != 'o'}
+
+
+def _run_case_kw(arg):
+    """(src, seed, mode, foreign, None, codes): reconcile() is called with the keyword parameters described by `codes`"""
+    codes = arg[5]
+    try:
+        res = _run_case_inner(arg[:4], _kw_values(codes))
+    except Exception:
+        import traceback
+        res = {'src': arg[0], 'seed': arg[1], 'mode': arg[2], 'rounds': [], 'skip': 'harness crash',
+               'crash': traceback.format_exc()[-1500:]}
+    res['kw'] = codes
+    for R in res.get('rounds', []):
+        if 'case' in R:
+            R['case'] = {}
+            R['reps'] = []
+            R['real'] = [e for e in R.get('real', []) if 'raised' in e][:5]
+    return res
+
+
+def _run_case_inner(arg, rkw=None):
     """One program, 1-3 rounds.  Returns a dict (JSON-able) with per-round model input, real trace and oracle verdicts."""
     src, seed, mode, foreign = arg
     from fst import FST
+    if mode in CUSTOM:
+        fails = CUSTOM[mode][0]()
+        return {'src': src, 'seed': seed, 'mode': mode,
+                'rounds': [{'round': 0, 'muts': [[mode, CUSTOM[mode][1]]], 'fails': [f for f in fails if not f[0].startswith('raised:')],
+                            **({'raised': fails[0][0][7:] + ': ' + fails[0][1]} if fails and fails[0][0].startswith('raised:') else {})}]}
     L.RECORDER.install()
     rng = random.Random(seed)
     if mode in WITNESS:
@@ -369,15 +532,18 @@ def _run_case_inner(arg):
                 res['skip'] = 'no site'
                 return res
         R['muts'] = [list(m) for m in muts]
+        edited_json = None
         try:
-            edited_json = S.ser(f.a)
             want = L.norm_dump(f.a)
             R['want_h'] = hashlib.md5(want.encode()).hexdigest()
             ast.unparse(f.a)         # CPython accepts the edited AST as a tree (type-valid)
+            edited_json = S.ser(f.a)
         except (RecursionError, IndexError, ValueError) as e:
-            res['skip'] = 'edited tree not serialisable: ' + type(e).__name__
-            return res
-        R['case'] = {'f': 'C13.reconcile', 'mark': mark_json, 'edited': edited_json}
+            if not (mode in WITNESS and isinstance(e, IndexError) and str(e) == 'C13-F16'):
+                res['skip'] = 'edited tree not serialisable: ' + type(e).__name__ + (' (C13-F16 shape)' if str(e) == 'C13-F16' else '')
+                return res
+        if edited_json is not None:
+            R['case'] = {'f': 'C13.reconcile', 'mark': mark_json, 'edited': edited_json}
         R['reps'] = [list(k) for k, _ in sorted(S.rep.items(), key=lambda kv: kv[1])]
         R['foreign'] = S.foreign_seen
         # untouched statements (decided on the edited AST, before reconcile)
@@ -389,10 +555,11 @@ def _run_case_inner(arg):
             if n2 is s['node'] and chain2 == s['chain'] and [id(x) for x in ast.walk(n2)] == s['ids'] \
                     and ast.dump(n2) == s['dump']:
                 untouched.append((s['path'], _mpath(f.a, s['path']), s['text']))
-        R['case']['paths'] = [list(mp) for _, mp, _ in untouched][:40]
+        if 'case' in R:
+            R['case']['paths'] = [list(mp) for _, mp, _ in untouched][:40]
         L.RECORDER.begin()
         try:
-            o = f.reconcile()
+            o = f.reconcile(**(rkw or {}))
         except RecursionError:
             res['skip'] = 'recursion'
             L.RECORDER.end()
@@ -484,6 +651,8 @@ def _cases(ctx, progs, nspecial, per_prog=1):
             args.append((p, ctx.rng.randrange(1 << 30), m, foreign))
     for m, (wsrc, _, _) in WITNESS.items():
         args.append((wsrc, 0, m, foreign))
+    for m in CUSTOM:
+        args.append(('', 0, m, foreign))
     return args
 
 
@@ -498,17 +667,16 @@ def _judge(ctx, results, name='reconcile trace vs Pfst.Reconcile.reconcile', sea
             ctx.tally('skipped', res['skip'])
             continue
         for R in res['rounds']:
-            if 'case' in R:
-                cases.append(R['case'])
-                owners.append((res, R))
+            cases.append(R.get('case') or None)       # rounds without a model input (custom scripts) still go through the oracle
+            owners.append((res, R))
+    outs = [None] * len(cases)       # oracle verdicts only
     if model:
+        idx = [i for i, c in enumerate(cases) if c]
         try:
-            outs = ctx.lean(cases)
+            for i, o in zip(idx, ctx.lean([cases[i] for i in idx])):
+                outs[i] = o
         except Exception as e:
             ctx.brk('correspondence', name, f'driver error: {e}')
-            outs = [None] * len(cases)
-    else:
-        outs = [None] * len(cases)       # oracle verdicts only
     bad = 0
     for (res, R), c, mo in zip(owners, cases, outs):
         muts = R.get('muts') or []
@@ -517,17 +685,17 @@ def _judge(ctx, results, name='reconcile trace vs Pfst.Reconcile.reconcile', sea
         if 'refused' in R:
             ctx.tally('refused', R['refused'][:60])
         key = [res['src'], res['seed'], res['mode'], R['round'], env_name(res.get('env'))]
-        at = ('@' + env_name(res['env'])) if res.get('env') else ''
+        at = ('@' + env_name(res['env'])) if res.get('env') else ('@' + _kw_name(res['kw'])) if res.get('kw') else ''
         # ---- property oracle ----
         if 'raised' in R:
             cls = 'raised:' + R['raised'].split(':')[0]
             ctx.fail(_sig(R, cls + at), f'reconcile() raised {R["raised"]} after {muts}' + (f' under caller options {at[1:]}' if at else ''),
                      {'src': res['src'], 'seed': res['seed'], 'mode': res['mode'], 'round': R['round'], 'muts': muts,
-                      'env': res.get('env')})
+                      'env': res.get('env'), 'kw': res.get('kw')})
         for cls, detail in R.get('fails', []):
             ctx.fail(_sig(R, cls + at), f'{cls} after {muts}' + (f' under caller options {at[1:]}' if at else '') + f': {detail[:300]}',
                      {'src': res['src'], 'seed': res['seed'], 'mode': res['mode'], 'round': R['round'], 'muts': muts,
-                      'env': res.get('env'), 'marked_src': R.get('marked_src'), 'result_src': R.get('result_src')})
+                      'env': res.get('env'), 'kw': res.get('kw'), 'marked_src': R.get('marked_src'), 'result_src': R.get('result_src')})
         ctx.tally('untouched_statements_compared', 'n')
         ctx.dist['untouched_statements_compared']['n'] += R.get('untouched_compared', 0) - 1
         # ---- correspondence ----
@@ -782,6 +950,51 @@ def _probe_catch(_=None):
     return {'caught': caught, 'battery': battery, 'retried': retried}
 
 
+def _probe_params(_=None):
+    """Runs in a forked child.  Reconcile.__init__ called with every combination of its three trivia parameters omitted (0) /
+    None (1) / a distinct value (2): which value does each parameter end up with - 'default' (the module's _DEFAULT_TRIVIA_*
+    constant), 'given' (the value passed for THAT parameter), or something else?"""
+    import itertools
+    from fst import FST
+    from fst import reconcile as RC
+    defaults = _param_defaults()
+    given = {'trivia_ast_put': ('block', 'none'), 'trivia_fst_put': ('none', 'none'), 'trivia_fst_get': ('all', 'none')}
+    rows = []
+    for codes in itertools.product((0, 1, 2), repeat=3):
+        f = FST('x = 1', 'exec')
+        f.mark()
+        kw = {}
+        for pn, c in zip(PARAMS, codes):
+            if c == 1:
+                kw[pn] = None
+            elif c == 2:
+                kw[pn] = given[pn]
+        try:
+            r = RC.Reconcile(f, f._cache['mark'], {}, **kw)
+            eff = []
+            for pn in PARAMS:
+                v = getattr(r, pn)
+                eff.append('given' if v is given[pn] or (v == given[pn] and v != defaults[pn]) else 'default' if v == defaults[pn]
+                           else 'other:' + repr(v))
+        except Exception as e:
+            eff = ['raised:' + type(e).__name__] * 3
+        rows.append([list(codes), eff])
+    return {'params': list(PARAMS), 'defaults': {k: repr(v) for k, v in defaults.items()}, 'rows': rows}
+
+
+_PARAMS_T = None
+
+
+def _params_table():
+    global _PARAMS_T
+    if _PARAMS_T is None:
+        r = L.fork_map(_probe_params, [None], nchunks=1)[0]
+        if 'crash' in r:
+            raise RuntimeError('params probe failed: ' + r['crash'])
+        _PARAMS_T = r
+    return _PARAMS_T
+
+
 _CATCH = None
 
 
@@ -849,6 +1062,19 @@ def extract(ctx):
            'end Pfst.Gen.ReconcileCatch\n')
     framework.write_if_changed(framework.LEAN / 'Pfst' / 'Gen' / 'ReconcileCatch.lean', txt)
     ctx.notes['reconcile_catch_tables'] = c
+    pt = _params_table()
+    txt = ('-- GENERATED by harness/props/C13.py (extract) from the imported /repo modules; do not edit\n'
+           'namespace Pfst.Gen.ReconcileParams\n\n'
+           f'/-- the trivia parameters of `FST.reconcile()` / `Reconcile.__init__` -/\ndef params : List String := {_lean_strs(pt["params"])}\n\n'
+           '/-- the module constants `_DEFAULT_TRIVIA_*` (Python reprs) -/\ndef defaults : List (String × String) := ['
+           + ', '.join(f'({q(k)}, {q(v)})' for k, v in pt['defaults'].items()) + ']\n\n'
+           '/-- `Reconcile.__init__` evaluated on the whole presence lattice: per parameter 0 = omitted, 1 = `None`, 2 = a value given;\n'
+           'effective value per parameter: "default" (the module constant), "given" (the value passed for that parameter), or other -/\n'
+           'def rows : List (List Nat × List String) := [\n  '
+           + ',\n  '.join('([' + ', '.join(map(str, c)) + '], ' + _lean_strs(e) + ')' for c, e in pt['rows']) + ']\n\n'
+           'end Pfst.Gen.ReconcileParams\n')
+    framework.write_if_changed(framework.LEAN / 'Pfst' / 'Gen' / 'ReconcileParams.lean', txt)
+    ctx.notes['reconcile_params_table'] = pt
 
 
 def _env_cases(ctx, progs, per_env, ncombos):
@@ -857,6 +1083,42 @@ def _env_cases(ctx, progs, per_env, ncombos):
     base_args = [(p, ctx.rng.randrange(1 << 30), 'normal', None) for p in progs[:per_env]]
     env_args = [a + (e,) for e in envs for a in base_args]
     return base_args, env_args, envs, missing
+
+
+def _kw_name(codes):
+    return ','.join(f'{k}={ {"o": "omitted", "n": "None", "d": "default"}[c]}' for k, c in codes.items())
+
+
+def _judge_kw(ctx, base, kw_results):
+    """reconcile(<parameters omitted / None / given their documented default>) must return exactly what the bare call returns"""
+    by = {(r.get('src'), r.get('seed'), r.get('mode')): r for r in base if 'crash' not in r}
+    for r in kw_results:
+        if 'crash' in r:
+            continue
+        b = by.get((r['src'], r['seed'], r['mode']))
+        if b is None or 'skip' in b or 'skip' in r:
+            continue
+        kn = _kw_name(r['kw'])
+        for Rb, Re in zip(b['rounds'], r['rounds']):
+            if Rb.get('muts') != Re.get('muts') or Rb.get('want_h') != Re.get('want_h'):
+                ctx.tally('kw_runs', 'edits differ')
+                break
+            ctx.count([r['src'], r['seed'], kn, Rb['round']], True)
+            if 'result_src' not in Rb or Rb.get('fails'):
+                ctx.tally('kw_runs', 'bare call has no clean result')
+                break
+            if 'result_src' not in Re or Re.get('fails'):
+                ctx.tally('kw_runs', 'fails with parameters only (reported by the oracle)')
+                break
+            if Rb['result_src'] == Re['result_src']:
+                ctx.tally('kw_runs', 'same source as the bare call')
+                continue
+            ctx.fail(_sig(Re, 'source-depends-on-parameter-presence@' + kn),
+                     f'reconcile({kn}) returns another source than reconcile() after {Re.get("muts")}: '
+                     + util.first_diff(Re['result_src'], Rb['result_src']).replace('live=', 'with=').replace('parsed=', 'bare='),
+                     {'src': r['src'], 'seed': r['seed'], 'mode': r['mode'], 'round': Re['round'], 'muts': Re.get('muts'),
+                      'kw': r['kw'], 'default_src': Rb['result_src'], 'result_src': Re['result_src']})
+            break
 
 
 def _judge_env(ctx, base, env_results, refused):
@@ -909,12 +1171,17 @@ def sweep(ctx):
     progs = _programs(ctx, 420 if q else 3000, 20 if q else 200)
     args = _cases(ctx, progs, 120 if q else 600, per_prog=2 if q else 4)
     base_args, env_args, envs, missing = _env_cases(ctx, progs, 80 if q else 150, 4 if q else 8)
-    allargs = args + base_args + env_args
+    kw_base = base_args[:12 if q else 40]
+    kw_args = [a + (None, c) for c in _kw_lattice() for a in kw_base]
+    allargs = args + base_args + env_args + kw_args
     results = L.fork_map(_run_case, allargs, nchunks=48)      # few chunks: a fresh process (fork) per chunk is costly
     n0, n1 = len(args), len(args) + len(base_args)
     _judge(ctx, results[:n1])
-    _judge(ctx, results[n1:], name='oracle under non-default caller options', model=False)
-    _judge_env(ctx, results[n0:n1], results[n1:], _option_tables()['refused'])
+    n2 = n1 + len(env_args)
+    _judge(ctx, results[n1:n2], name='oracle under non-default caller options', model=False)
+    _judge_env(ctx, results[n0:n1], results[n1:n2], _option_tables()['refused'])
+    _judge(ctx, results[n2:], name='oracle under every presence combination of reconcile() parameters', model=False)
+    _judge_kw(ctx, results[n0:n1], results[n2:])
     ctx.notes['cases'] = len(args)
     ctx.notes['caller_option_environments'] = [env_name(e) for e in envs]
     if missing:
@@ -949,7 +1216,7 @@ def replay(ctx, data):
     env = w.get('env')
     if env:
         env = {k: (tuple(v) if isinstance(v, list) else v) for k, v in env.items()}
-    res = _run_case((w['src'], w.get('seed', 0), w.get('mode', 'normal'), None, env))
+    res = _run_case((w['src'], w.get('seed', 0), w.get('mode', 'normal'), None, env, w.get('kw')))
     if env and w.get('default_src') is not None:
         base = _run_case((w['src'], w.get('seed', 0), w.get('mode', 'normal'), None))
         for Rb, Re in zip(base.get('rounds', []), res.get('rounds', [])):
